@@ -2,7 +2,7 @@
    Only statements, `exact`, Print Assumptions and non-vacuity examples. *)
 From Coq Require Import List Bool Arith Reals Lra Sorted.
 Import ListNotations.
-From PS Require Import Num RLemmas Valid ModelKernels ModelFuncs ModelAPI Spec SyncDefs Lem_IsiProps Lem_Transform Lem_Transform2 Lem_API Lem_WF Lem_API2.
+From PS Require Import Num RLemmas Valid ModelKernels ModelFuncs ModelAPI Spec SyncDefs Lem_IsiProps Lem_Transform Lem_Transform2 Lem_API Lem_WF Lem_API2 Lem_API3.
 Require Import PS.Props.PropTac.
 Local Open Scope R_scope.
 
@@ -131,6 +131,60 @@ Theorem C08_spike_distance_scale : forall eps cy m ri iv k a b ts te, 0 < k -> v
   spike_distance_bi ROps eps cy false (k * m) ri (scale_iv k iv) (scale_train k a) (scale_train k b) = spike_distance_bi ROps eps cy false m ri iv a b.
 Proof. exact spike_distance_scale_iv. Qed.
 Print Assumptions C08_spike_distance_scale.
+
+(* the remaining two-train scalars (Lem_API3.v), both backends *)
+Theorem C08_sync_value_shift : forall eps cy mt m iv c a b ts te, vtrain ts te a -> vtrain ts te b -> iv_ok ts te iv ->
+  spike_sync_bi ROps eps cy false mt m (shift_iv c iv) (shift_train c a) (shift_train c b) = spike_sync_bi ROps eps cy false mt m iv a b.
+Proof. exact sync_value_shift. Qed.
+Print Assumptions C08_sync_value_shift.
+Theorem C08_sync_value_scale : forall eps cy mt m iv k a b ts te, 0 < k -> vtrain ts te a -> vtrain ts te b -> iv_ok ts te iv ->
+  spike_sync_bi ROps eps cy false (k * mt) (k * m) (scale_iv k iv) (scale_train k a) (scale_train k b) = spike_sync_bi ROps eps cy false mt m iv a b.
+Proof. exact sync_value_scale. Qed.
+Print Assumptions C08_sync_value_scale.
+Theorem C08_order_value_shift : forall eps cy nrm mt m c a b ts te, vtrain ts te a -> vtrain ts te b ->
+  spike_train_order_bi ROps eps cy false nrm mt m (shift_train c a) (shift_train c b) = spike_train_order_bi ROps eps cy false nrm mt m a b.
+Proof. exact order_value_shift. Qed.
+Print Assumptions C08_order_value_shift.
+(* the fall-back path reconciles with an absolute tolerance eps that does not scale: harmless for eps >= 0 (the code has 1e-6) *)
+Theorem C08_order_value_scale : forall eps cy nrm mt m k a b ts te, 0 < k -> cy = true \/ 0 <= eps -> vtrain ts te a -> vtrain ts te b ->
+  spike_train_order_bi ROps eps cy false nrm (k * mt) (k * m) (scale_train k a) (scale_train k b) = spike_train_order_bi ROps eps cy false nrm mt m a b.
+Proof. exact order_value_scale. Qed.
+Print Assumptions C08_order_value_scale.
+Theorem C08_directionality_value_shift : forall eps cy nrm mt m c a b ts te, vtrain ts te a -> vtrain ts te b ->
+  spike_directionality ROps eps cy false nrm mt m (shift_train c a) (shift_train c b) = spike_directionality ROps eps cy false nrm mt m a b.
+Proof. exact directionality_shift. Qed.
+Print Assumptions C08_directionality_value_shift.
+Theorem C08_directionality_value_scale : forall eps cy nrm mt m k a b ts te, 0 < k -> vtrain ts te a -> vtrain ts te b ->
+  spike_directionality ROps eps cy false nrm (k * mt) (k * m) (scale_train k a) (scale_train k b) = spike_directionality ROps eps cy false nrm mt m a b.
+Proof. exact directionality_scale. Qed.
+Print Assumptions C08_directionality_value_scale.
+(* time reversal at API level: ISI, SPIKE, SPIKE-Sync values unchanged; directionality and order change sign *)
+Theorem C08_isi_distance_value_mirror : forall eps cy m a b ts te, vtrain ts te a -> vtrain ts te b ->
+  isi_distance_bi ROps eps cy false m None (mirror_tr a) (mirror_tr b) = isi_distance_bi ROps eps cy false m None a b.
+Proof. exact Lem_API3.isi_distance_mirror. Qed.
+Print Assumptions C08_isi_distance_value_mirror.
+Theorem C08_spike_distance_value_mirror : forall eps cy m ri a b ts te, vtrain ts te a -> vtrain ts te b ->
+  spike_distance_bi ROps eps cy false m ri None (mirror_tr a) (mirror_tr b) = spike_distance_bi ROps eps cy false m ri None a b.
+Proof. exact Lem_API3.spike_distance_mirror. Qed.
+Print Assumptions C08_spike_distance_value_mirror.
+Theorem C08_sync_value_mirror : forall eps cy mt m a b ts te, vtrain ts te a -> vtrain ts te b ->
+  spike_sync_bi ROps eps cy false mt m None (mirror_tr a) (mirror_tr b) = spike_sync_bi ROps eps cy false mt m None a b.
+Proof. exact sync_value_mirror. Qed.
+Print Assumptions C08_sync_value_mirror.
+Theorem C08_directionality_value_mirror : forall eps cy nrm mt m a b ts te, vtrain ts te a -> vtrain ts te b ->
+  spike_directionality ROps eps cy false nrm mt m (mirror_tr a) (mirror_tr b) = rmap Ropp (spike_directionality ROps eps cy false nrm mt m a b).
+Proof. exact directionality_mirror. Qed.
+Print Assumptions C08_directionality_value_mirror.
+Theorem C08_order_value_mirror : forall eps cy mt m a b ts te, vtrain ts te a -> vtrain ts te b ->
+  spike_train_order_bi ROps eps cy false false mt m (mirror_tr a) (mirror_tr b) = rmap Ropp (spike_train_order_bi ROps eps cy false false mt m a b).
+Proof. exact order_value_mirror. Qed.
+Print Assumptions C08_order_value_mirror.
+(* normalised order value: sign change for every input with at least one spike; without spikes it fails (F13, next theorem) *)
+Theorem C08_order_value_mirror_normalised : forall eps cy mt m a b ts te, cy = true \/ 0 < eps -> vtrain ts te a -> vtrain ts te b ->
+  tr_spikes a <> [] \/ tr_spikes b <> [] ->
+  spike_train_order_bi ROps eps cy false true mt m (mirror_tr a) (mirror_tr b) = rmap Ropp (spike_train_order_bi ROps eps cy false true mt m a b).
+Proof. exact order_value_mirror_norm. Qed.
+Print Assumptions C08_order_value_mirror_normalised.
 
 From PS Require Lem_Findings.
 (* KNOWN FINDING F13 as a theorem: the normalised spike-train order of two trains without spikes is
